@@ -132,7 +132,7 @@ class PauliMeasurementGate(raw_types.Gate):
         ) == self._observable:
             return self
         return PauliMeasurementGate(
-            observable, key=self.key, confusion_matrix=self.confusion_matrix
+            observable, key=self.mkey, confusion_matrix=self.confusion_matrix
         )
 
     def _is_measurement_(self) -> bool:
